@@ -33,8 +33,21 @@ def budget_s(tier):
 
 @st.composite
 def one_program(draw, big):
-    kind = draw(st.sampled_from(["flow", "flow", "map", "record"]))
+    kind = draw(st.sampled_from(["flow", "flow", "map", "record", "errcap"]))
     horizon = draw(st.integers(4, 30 if big else 14))
+    if kind == "errcap":
+        # a library node (process-wide interned node type) that throws, captured with per-graph diagnostic options: the
+        # error ticks must carry the options THIS graph asked for, whatever other graphs of the process asked for
+        xs = draw(gen.int_script(0, horizon - 1, max_size=6, min_size=2))
+        zs = [[t, [{"k": "set", "v": draw(st.sampled_from([0, 0, 1, 2]))}]] for t, _ in xs]
+        return {"start": 0, "end": horizon, "stmts": [
+            {"id": "x", "op": "src", "schema": "TS[int]", "script": xs},
+            {"id": "z", "op": "src", "schema": "TS[int]", "script": zs},
+            {"id": "pre", "op": "node", "ins": ["x"], "out": "TS[int]", "fn": "sum", "log_inputs": False},
+            {"id": "q", "op": "op", "name": draw(st.sampled_from(["floordiv_", "mod_"])), "args": [{"ts": "pre"}, {"ts": "z"}], "has_out": True},
+            {"id": "err", "op": "errcap", "of": "q", "depth": draw(st.integers(1, 3)), "values": draw(st.booleans())},
+            {"id": "rerr", "op": "node", "ins": ["err"], "deep": True, "valid": []},
+            {"id": "rq", "op": "node", "ins": ["q"], "valid": []}]}
     if kind == "flow":
         prog = draw(gen.dataflow(0, horizon, max_nodes=8, max_depth=2, big=big))
         prog["stmts"] = draw(gen.permuted(prog["stmts"]))
